@@ -66,6 +66,18 @@ CHECKS = {
              "find_min = lowest column with exactly one stable pole per band; the same value-based oracle on mpe() after real SSIcov/pLSCF runs. "
              "pLSCF find_min's legacy label 7 is reported as KNOWN-FINDING.",
         ref="3/C11"),
+    "C06": dict(
+        technique="runtime monitoring: postconditions on every SD_svalsvec / FDD_mpe call (independent SVD per line) + narrow-band amplitude workload",
+        text="Exploration: the stored decomposition is checked per line (non-negative, sorted, unitary, diagonalising, values or consistently roots) and "
+             "every FDD pick (function, FDD, FDD_MS, first stage of EFDD) is checked to be a grid line of the band whose sigma1/sigma2, recomputed by an "
+             "independent SVD of Sy, dominates the interior lines, with MAC 1 against conj(u1); sinusoids with known complex amplitudes pin the convention.",
+        ref="3/C06"),
+    "C07": dict(
+        technique="runtime monitoring: ground-truth oracle on EFDD_mpe / EFDD.mpe / FSDD.mpe outputs for analytic SDOF spectra + scale metamorphosis",
+        text="Exploration: analytic single-mode spectral matrices drawn from exactly the quantifier's class are given to EFDD_mpe (both methods) and to the "
+             "EFDD/FSDD classes (SD_est replaced by the analytic matrix); MAC >= 0.999, 2.5 % frequency and 15 % damping accuracy and 1e-8 invariance "
+             "under Sy -> c*Sy are asserted.",
+        ref="3/C07"),
 }
 
 PENDING_REASON = "check not built yet in this session (work in progress; the design in DESIGN.md section 3 applies)"
